@@ -3,3 +3,4 @@ import Iodata.Model.Fmt.FcidumpW
 import Iodata.Model.Fmt.PoscarW
 import Iodata.Model.Fmt.FchkO
 import Iodata.Model.Fmt.WfnS
+import Iodata.Model.Fmt.WfxS
